@@ -41,7 +41,7 @@ fn boundary(data: &[u8], pos: usize, condition: impl Fn(u8) -> bool) -> usize {
 
 #[inline]
 fn is_whitespace(b: u8) -> bool {
-    matches!(b, 0 | b' ' | b'\r' | b'\n' | b'\t')
+    matches!(b, 0 | b' ' | b'\r' | b'\n' | b'\t' | b'\x0c')
 }
 #[inline]
 fn not<T>(f: impl Fn(T) -> bool) -> impl Fn(T) -> bool {
@@ -152,7 +152,7 @@ impl<'a> Lexer<'a> {
         let mut pos = self.skip_whitespace(self.pos)?;
         while self.buf.get(pos) == Some(&b'%') {
             pos += 1;
-            if let Some(off) = self.buf[pos..].iter().position(|&b| b == b'\n') {
+            if let Some(off) = self.buf[pos..].iter().position(|&b| b == b'\n' || b == b'\r') {
                 pos += off+1;
             }
             
@@ -398,7 +398,7 @@ impl<'a> Substr<'a> {
             return false;
         }
         let mut slice = self.slice;
-        if slice[0] == b'-' {
+        if slice[0] == b'-' || slice[0] == b'+' {
             if slice.len() < 2 {
                 return false;
             }
@@ -414,7 +414,7 @@ impl<'a> Substr<'a> {
             return None;
         }
         let mut slice = self.slice;
-        if slice[0] == b'-' {
+        if slice[0] == b'-' || slice[0] == b'+' {
             if slice.len() < 2 {
                 return None;
             }
